@@ -50,6 +50,21 @@ class HT {
     @tracked public qubit tq;
     public constructor() -> HT = default;
 }
+class HTS extends HT {
+    public int tag = 1;
+    public constructor() -> HTS {
+        super();
+        return this;
+    }
+}
+class HDT {
+    @tracked public qubit dt;
+    public constructor() -> HDT = default;
+    public destructor() -> void {
+        x(this.dt);
+        measure this.dt;
+    }
+}
 class HA {
     @tracked public qubit[3] ta;
     public constructor() -> HA = default;
@@ -157,6 +172,10 @@ function freset(qubit p) -> void {
 function inner2(qubit p) -> void {
     fh(p);
 }
+function xthen(qubit p, float t) -> float {
+    x(p);
+    return t;
+}
 function mkH1() -> H1 {
     H1 fresh = new H1();
     return fresh;
@@ -201,7 +220,8 @@ def _init_helper_lines():
         "fms": _line_of(P, "\n    measure p;") + 1,
         "freset": _line_of(P, "\n    reset p;") + 1,
         "inner2": _line_of(P, "\n    h(p);") + 1,
-        "HD.dtor": _line_of(P, "        h(this.dq);"),
+        "HD.dtor": _line_of(P, "        h(this.dq);"), "HDT.dtor": _line_of(P, "        x(this.dt);"),
+        "xthen": _line_of(P, "\n    x(p);", 1) + 1,
         "touchBase": _line_of(P, "        x(sq);"), "touchOwn": _line_of(P, "        h(own);"),
         "HD.dtor.x": _line_of(P, "        x(ds);"),
     })
@@ -252,7 +272,7 @@ PROFILES = {
                     misuse=0, alias=0, block=4, measure_reg=2),
 }
 
-NEED = {"H1": 3, "HT": 1, "H2": 4, "HA": 3, "HD": 2, "HG": 1, "H1S": 3, "HP": 3}     # HD: its own qubit + the one its destructor declares     # qubits owned by an instance
+NEED = {"H1": 3, "HT": 1, "H2": 4, "HA": 3, "HD": 2, "HG": 1, "H1S": 3, "HP": 3, "HTS": 1, "HDT": 1}     # HD: its own qubit + the one its destructor declares     # qubits owned by an instance
 REGFIELD = {"H1": ("qs", 2), "HA": ("ta", 3), "H1S": ("qs", 2)}   # the qubit[] field of a class
 
 ANGLES = [0.5, -0.5, 1.5, 0.25, 3.0, -2.75, 0.125, 6.25, 0.0, 1.0, -1.0, 0.0078125, 100.5,
@@ -308,8 +328,10 @@ class Gen:
                 out.append(("f", name, "cq"))
                 out.append(("f", name, "mq"))
                 out.append(("f", name, "pq"))
-            elif cls == "HT":
+            elif cls in ("HT", "HTS"):
                 out.append(("f", name, "tq"))
+            elif cls == "HDT":
+                out.append(("f", name, "dt"))
             elif cls == "HA":
                 for i in range(3):
                     out.append(("fe", name, "ta", i))
@@ -372,7 +394,10 @@ class Gen:
         return dict(k="decl", name=name, n=n, tracked=tracked)
 
     def stmt_new(self):
-        cls = self.r.choice(["H1", "H1S", "H2", "HT", "HA", "HG", "HP"] if self.p != "tracked" else ["HT", "HT", "HA", "H1", "HG", "HG"])
+        cls = self.r.choice(["H1", "H1S", "H2", "HT", "HA", "HG", "HP", "HTS"] if self.p != "tracked" else
+                            ["HT", "HTS", "HA", "H1", "HG", "HG", "HTS", "HDT"])
+        if self.p in ("measure",) and self.r.random() < 0.3:
+            cls = self.r.choice(["HDT", "HTS"])
         if self.p in ("reset", "handles") and self.r.random() < 0.35:
             cls = self.r.choice(["H1S", "H1S", "HP"])     # qubits inherited from a base class
         if self.p in ("flags", "flags_recycle") and self.r.random() < 0.4:
@@ -458,6 +483,12 @@ class Gen:
             vias += ["method"]
         if g == "rz":
             vias += ["method"]
+        if g[0] == "r" and self.r.random() < 0.15 and not getattr(self, "misusing", False):
+            # the angle operand is a call that applies a gate to another qubit on the way
+            other = self.pick_q(2)
+            if other and self.key_of(other[1]) != self.key_of(qs[0]):
+                return dict(k="gate", g=g, qs=[qs[0]], theta=theta, tform="lit", via="direct", angle_via=other[1] if
+                            self.key_of(other[1]) != self.key_of(qs[0]) else other[0])
         if qs[0] == ("s", "HS", "sq") and g == "x" and self.r.random() < 0.6:
             vias = ["sbase"]      # a base-class static qubit named bare inside a subclass's static method
         if qs[0] == ("s", "HSB", "own") and g == "h" and self.r.random() < 0.6:
@@ -469,8 +500,8 @@ class Gen:
         if not qs:
             return None
         if not getattr(self, "misusing", False) and self.p not in ("flags", "flags_recycle") and \
-                qs[0][0] == "f" and qs[0][2] == "dq":
-            return None       # HD's destructor touches dq: measured, its death would stop the run
+                qs[0][0] == "f" and qs[0][2] in ("dq", "dt"):
+            return None       # HD's / HDT's destructor touches the qubit: measured, its death would stop the run
         form = self.r.choice(["stmt", "expr", "expr", "qfunc", "fstmt", "method", "echoexpr"])
         bit = None
         if form in ("expr", "qfunc", "method"):
@@ -588,7 +619,7 @@ class Gen:
         # an operation on a qubit; whether it is legal is decided by the model at run time
         self.misusing = True
         try:
-            return self.r.choice([self.stmt_gate, self.stmt_measure, self.stmt_measure])()
+            return self.r.choice([self.stmt_gate, self.stmt_measure, self.stmt_measure, self.stmt_measure_reg])()
         finally:
             self.misusing = False
 
@@ -739,6 +770,8 @@ class Renderer:
             args = [render_qref(q) for q in s["qs"]]
             if s["theta"] is not None:
                 args.append(self.theta_src(s))
+                if s.get("angle_via"):
+                    args[-1] = "xthen(%s, %s)" % (render_qref(s["angle_via"]), args[-1])
             a = ", ".join(args)
             if via == "direct":
                 self.emit(ind, "%s(%s);" % (g, a), s)
@@ -1284,9 +1317,19 @@ class Model:
             self.expect_sim("h", idx, what=" [HD destructor]")
             self.state.gate("h", idx, 0.0)
             self.check_state("h q%d in destructor" % idx)
-        if inst.cls == "HT":
+        if inst.cls == "HDT":
+            # the user destructor runs first - x(this.dt); measure this.dt; - and the tracked record of dt,
+            # taken when the object is released, reports that last measurement
+            idx = inst.q["dt"]
+            self.op_guard(idx, HELPER_LINE["HDT.dtor"], "destructor x")
+            self.expect_sim("x", idx, what=" [HDT destructor]")
+            self.state.gate("x", idx, 0.0)
+            self.check_state("x q%d in destructor" % idx)
+            self.measure(idx)
+            tracked_expect.append(("HDT.dt", self.outcome_str([idx])))
+        if inst.cls in ("HT", "HTS"):
             idx = inst.q["tq"]
-            tracked_expect.append(("HT.tq", self.outcome_str([idx])))
+            tracked_expect.append(("%s.tq" % inst.cls, self.outcome_str([idx])))
         if inst.cls == "HA":
             tracked_expect.append(("HA.ta", self.outcome_str(list(inst.q["ta"]))))
         if inst.cls == "HG":
@@ -1606,8 +1649,10 @@ class Model:
             # fields are laid out base-first: HC.cq, HM<int>.mq, HP.pq - three distinct qubits
             for f in ("cq", "mq", "pq"):
                 inst.q[f] = self.alloc("%s.%s" % (name, f))
-        elif cls == "HT":
+        elif cls in ("HT", "HTS"):
             inst.q["tq"] = self.alloc("%s.tq" % name)
+        elif cls == "HDT":
+            inst.q["dt"] = self.alloc("%s.dt" % name)
         elif cls == "HA":
             inst.q["ta"] = [self.alloc("%s.ta[%d]" % (name, i)) for i in range(3)]
         elif cls == "HD":
@@ -1641,6 +1686,12 @@ class Model:
         if s.get("pre_bit"):
             self.scopes[-1][s["pre_bit"][0]] = ("bit", s["pre_bit"][1])
         ix = [self.resolve(q) for q in s["qs"]]
+        if s.get("angle_via"):
+            j = self.resolve(s["angle_via"])
+            self.op_guard(j, HELPER_LINE["xthen"], "x inside the angle operand")
+            self.expect_sim("x", j, what=" [inside the angle operand]")
+            self.state.gate("x", j, 0.0)
+            self.check_state("x q%d inside an operand" % j)
         helper = {"direct": None, "func": "f" + g, "funcr": "fcxr", "qfunc": "qh",
                   "nested": "inner2", "method": "m" + g, "sbase": "touchBase", "sown": "touchOwn"}[via]
         line = s["line"] if helper is None else HELPER_LINE[helper]
